@@ -99,6 +99,23 @@ Theorem C05_produce_decodable_legacy_v1 : forall comp decomp : N -> list N -> li
 Proof. exact legacy_v1_decodable. Qed.
 Print Assumptions C05_produce_decodable_legacy_v1.
 
+(* the message format is a function of the negotiated Produce API version: record batches
+   (format 2, the only one carrying headers) exactly from v3 on; what Client.Produce / Writer
+   put on the wire at version v is the format-2 writer's output for v >= 3 (so the theorem
+   C05_produce_decodable_proto_v2 applies, headers included) and the format-1 writer's below
+   (format 1 has no headers: C05_produce_decodable_proto_v1_partial speaks about keys, values,
+   timestamps only — the property can hold for header-less records only there). *)
+Theorem C05_format_of_version : forall v,
+  (format_of_produce_version v = 2 <-> 3 <= v) /\ (format_of_produce_version v = 1 <-> v < 3).
+Proof. exact format_of_version. Qed.
+Print Assumptions C05_format_of_version.
+
+Theorem C05_produce_at_version : forall (comp : N -> list N -> list N) v attrs now rs,
+  (3 <= v -> proto_produce comp v attrs now rs = proto_v2 comp attrs now rs) /\
+  (v < 3 -> proto_produce comp v attrs now rs = Some (proto_v1 comp attrs now rs)).
+Proof. exact proto_produce_format. Qed.
+Print Assumptions C05_produce_at_version.
+
 (* nilify / conn_view (Proofs/RecordsConn.v): nil/empty are not distinguished by the Conn path;
    its makeTime maps t <= 0 to the zero time *)
 (* a fetch response: offsets strictly increasing and starting at or after the fetch offset,
